@@ -303,7 +303,7 @@ theorem C08_forward_only (s : Sys) (l1 l2 : List Step) (inv : ClaimInv s.hub) (h
             | bsei s1 sender funds tm _ _ hx' h t r d g => rw [h]; exact hp
             | stsei blk sender funds tm _ hx' h b r d g => rw [h]; exact hp
             | reward s1 sender funds rm _ _ _ _ hx' h b t d g => rw [h]; exact hp
-            | disp env sender funds dm _ hx' h b t r g => rw [h]; exact hp
+            | disp env sender funds dm _ _ _ hx' h b t r g => rw [h]; exact hp
             | reg s1 sender funds rm _ h1 _ _ hx' h b t r d => rw [h]; exact hp)
           y m ⟨iy, ly, HistExt.refl _⟩
         exact this.2.2
